@@ -14,4 +14,5 @@ for p in enga engc; do
 done
 rm -f ../.build/warm.test
 (go test -vet=off -count=1 ./vkit/ >/dev/null 2>&1 && echo "vkit unit tests ok") || echo "WARNING: vkit unit tests failed"
+(go test -tags verif -vet=off -count=1 -run 'TestBoundReceiver' ./engc/ >/dev/null 2>&1 && echo "engc scheduler unit tests ok") || echo "WARNING: engc scheduler unit tests failed (lock model falls back to source text)"
 echo "setup ok"
